@@ -103,6 +103,8 @@ def convert(model: nn.Module, input_example: Any, conversion_type: str,
         # dictionary of shared feature maskers. Used only in 'autoimport' mode.
         sm_dict = {} if conversion_type != 'autoimport' else build_shared_features_map(mod)
         convert_layers(mod, conversion_type, sm_dict, exclude_names, exclude_types, fold_bn)
+    if conversion_type == 'export':
+        add_bn_to_repeated_call_sites(mod)
     if conversion_type in ('autoimport', 'import'):
         fuse_pit_modules(mod, fold_bn)
         add_features_calculator(mod, [pit_features_calc])
@@ -154,6 +156,28 @@ def convert_layers(mod: fx.GraphModule,
             queue.append(pred)
         visited.append(n)
     return
+
+
+def add_bn_to_repeated_call_sites(mod: fx.GraphModule):
+    """A layer invoked several times in the forward pass is exported only once (at its first
+    call site): the BatchNorm re-created after it must follow each of its call sites.
+
+    :param mod: the exported fx.GraphModule
+    :type mod: fx.GraphModule
+    """
+    modules = dict(mod.named_modules())
+    for n in list(mod.graph.nodes):
+        if n.op != 'call_module':
+            continue
+        bn_name = str(n.target) + '_exported_bn'
+        if bn_name not in modules:
+            continue
+        if any(u.op == 'call_module' and str(u.target) == bn_name for u in n.users):
+            continue
+        with mod.graph.inserting_after(n):
+            new_node = mod.graph.call_module(bn_name, args=(n,))
+            n.replace_all_uses_with(new_node)
+            new_node.replace_input_with(new_node, n)
 
 
 def build_shared_features_map(mod: fx.GraphModule) -> Dict[fx.Node, PITFeaturesMasker]:
